@@ -49,6 +49,42 @@ feature liga {
 """
 
 
+# the same kinds of lookups, but in every coverage-parallel array two glyphs carry *equal* entries and a third a different one
+# (an implementation that finds an entry's glyph by looking the entry up by value pairs it with the wrong glyph)
+FEA_DUP = """
+languagesystem DFLT dflt;
+@MARKS=[b e f];
+markClass e <anchor 10 20> @TOP;
+markClass f <anchor 10 20> @TOP;
+markClass b <anchor 30 40> @TOP;
+
+table GDEF {
+  GlyphClassDef [a], [c d], [b e f], ;
+  Attach a 1 2;
+  Attach c 1 2;
+  Attach f 2;
+  LigatureCaretByPos d 100 200;
+  LigatureCaretByPos c 100 200;
+  LigatureCaretByPos a 70;
+} GDEF;
+feature kern {
+  lookup sp1 { pos [a c d] -10; } sp1;
+  lookup sp2 { pos a <1 2 3 4>; pos c <1 2 3 4>; pos d <5 6 7 8>; } sp2;
+  lookup pp1 { pos a b -11; pos a d -12; pos c b -11; pos c d -12; pos d a -13; } pp1;
+  lookup cur { pos cursive a <anchor 1 2> <anchor 3 4>; pos cursive c <anchor 1 2> <anchor 3 4>; pos cursive d <anchor 5 6> <anchor NULL>;} cur;
+  lookup mb { pos base a <anchor 100 200> mark @TOP; pos base c <anchor 100 200> mark @TOP; pos base d <anchor 101 201> mark @TOP;} mb;
+  lookup ml { pos ligature a <anchor 5 6> mark @TOP; pos ligature c <anchor 5 6> mark @TOP; pos ligature d <anchor 1 2> mark @TOP ligComponent <anchor 3 4> mark @TOP;} ml;
+  lookup mm { pos mark e <anchor 9 9> mark @TOP; pos mark f <anchor 9 9> mark @TOP; pos mark b <anchor 8 8> mark @TOP;} mm;
+} kern;
+feature liga {
+  lookup ss { sub a by b; sub d by c; } ss;
+  lookup ms { sub a by b c; sub c by b c; sub d by e f; } ms;
+  lookup alt { sub a from [b d]; sub c from [b d]; sub d from [a e]; } alt;
+  lookup rcs { rsub [a d] [d b a]' [c e] by [c f c]; } rcs;
+} liga;
+"""
+
+
 def _cov(glyphs):
     c = ot.Coverage()
     c.glyphs = list(glyphs)
@@ -189,7 +225,7 @@ def _add_lookup(table, ltype, subtables, feature_index=0):
     return idx
 
 
-def make(n_glyphs=6):
+def make(n_glyphs=6, dup=False):
     glyphs = G[:n_glyphs]
     fb = FontBuilder(1000, isTTF=True)
     order = [".notdef"] + G
@@ -218,7 +254,11 @@ def make(n_glyphs=6):
     }, clipBoxes={"a": (0, 0, 200, 200), "e": (0, 0, 100, 300)})
     fb.setupCPAL([[(1, 0, 0, 1), (0, 0, 1, 1)]])
     font = fb.font
-    addOpenTypeFeaturesFromString(font, FEA)
+    addOpenTypeFeaturesFromString(font, FEA_DUP if dup else FEA)
+    if dup:
+        b = io.BytesIO()
+        font.save(b)
+        return b.getvalue()
     gsub, gpos, gdef = font["GSUB"].table, font["GPOS"].table, font["GDEF"].table
     # index of the simple lookups the contextual ones call
     ss = 0  # first GSUB lookup is 'ss'
